@@ -70,7 +70,7 @@ def sh(cmd, timeout=600, cwd=None, env=None, inp=None):
 
 def coq_sources():
     out = []
-    for d in ("Base", "Model", "Proofs", "Props"):
+    for d in ("Base", "Model", "Kernels", "Proofs", "Props"):
         p = os.path.join(COQ, d)
         if os.path.isdir(p):
             for f in sorted(os.listdir(p)):
@@ -85,6 +85,9 @@ def build_coq(timeout=1500, only=None):
     lock = open(os.path.join(ROOT, "build", ".lock"), "w")
     fcntl.flock(lock, fcntl.LOCK_EX)
     try:
+        # regenerate the scalar kernels from the tree under test (tools/py2v.py, fail-closed); the files only change when the source did
+        rc0, o0, e0 = sh("python3 %s --repo %s" % (os.path.join(ROOT, "tools", "py2v.py"), REPO), cwd=ROOT, timeout=120)
+        tlog = (o0 + e0).strip()
         srcs = coq_sources()
         proj = "-Q . SV\n" + "\n".join(srcs) + "\n"
         pf = os.path.join(COQ, "_CoqProject")
@@ -96,9 +99,10 @@ def build_coq(timeout=1500, only=None):
         target = ""
         if only:
             target = " ".join(x[:-2] + ".vo" for x in only)
-        rc, o, e = sh("timeout %d make -j%d %s 2>&1" % (timeout, NCPU, target), cwd=COQ,
+        # -k: a file that no longer compiles (e.g. a kernel equivalence after a source edit) must not keep unrelated properties from being re-checked
+        rc, o, e = sh("timeout %d make -k -j%d %s 2>&1" % (timeout, NCPU, target), cwd=COQ,
                       timeout=timeout + 30)
-        return rc == 0, o + e
+        return rc == 0 and rc0 == 0, (tlog + "\n" if tlog else "") + o + e
     finally:
         fcntl.flock(lock, fcntl.LOCK_UN)
         lock.close()
@@ -618,7 +622,9 @@ class Ctx(object):
             rc = 1
         else:
             broken = []
-            if not self.build_ok:
+            if not self.build_ok and not (self.proof is not None and self.proof.get("ok")):
+                # some file of the development no longer builds; it concerns this property only if its own theorems (Props/CXX.v
+                # and everything they depend on, generated kernels included) could not be re-checked
                 broken.append(dict(kind="coq-build-failed", log=self.build_log[-3000:]))
             if self.proof is not None and not self.proof.get("ok"):
                 broken.append(dict(kind="property-theorems-not-checked", file="coq/Props/%s.v" % self.pid,
